@@ -76,6 +76,9 @@ def variants(msg):
                        (b"\r\x03\x17", "term-both"), (b"\n\x03", "term-lf-etx"), (b"\r\n\x03", "term-crlf-etx")):
         c2 = content[:len(content) - tlen] + term
         yield (name, b"\x02" + c2 + gens.checksum(c2) + msg[end:], None)
+    # something in front of the STX (a stray line terminator, a control character, text, a frame that lost its STX)
+    for junk in (b"\n", b"\r\n", b"\x05", b"\x06", b"\x00", b"xx", b" ", msg[1:end]):
+        yield ("junk-before-stx", junk + msg, None)
     cs = msg[end - 2:end]
     yield ("case-lower", msg[:end - 2] + cs.lower() + msg[end:], False)
     yield ("case-mixed", msg[:end - 2] + cs[:1].lower() + cs[1:] + msg[end:], False)
